@@ -10,7 +10,8 @@ From HV Require Import Ord Sprout.
 Import ListNotations.
 
 Inductive dkind := KPop | KCma | KLocal | KSampler.
-Inductive lsc_kind := LMetaLimit (n : nat) | LDontStop | LDontRun | LAllChildrenStopped | LOracle.
+Inductive lsc_kind := LMetaLimit (n : nat) | LDontStop | LDontRun | LAllChildrenStopped | LOracle
+| LSteadiness (n : nat).   (* FitnessSteadiness(_, n): false while the deme has run fewer than n metaepochs; afterwards a float-valued verdict from outside *)
 Inductive gsc_kind :=
 | GMetaLimit (n : nat) | GDontRun | GDontStop | GRootStopped | GAllStopped
 | GEvalLimit (limit : nat) (weights : list nat)        (* singular: all weights 1; FitnessEvalLimitReached: per level *)
@@ -149,6 +150,7 @@ Definition lsc_eval (k : lsc_kind) (i : nat) (l : list deme) : option bool :=
   | LDontRun => Some true
   | LAllChildrenStopped => Some (negb (Nat.eqb (length (children_of i l)) 0) && forallb (fun d => negb (d_active d)) (children_of i l))
   | LOracle => None
+  | LSteadiness n => if d_meta (dnth i l) <? n then Some false else None
   end.
 Definition consistent (o : option bool) (v : bool) : bool := match o with Some b => Bool.eqb b v | None => true end.
 
